@@ -1,6 +1,7 @@
 package props
 
 import (
+	"bufio"
 	"bytes"
 	"crypto/sha256"
 	"encoding/json"
@@ -8,8 +9,11 @@ import (
 	"fmt"
 	"io"
 	"os"
+	"os/exec"
 	"path/filepath"
 	"runtime/debug"
+	"strings"
+	"sync"
 	"testing"
 	"testing/synctest"
 	"time"
@@ -50,10 +54,29 @@ func (ls locksim) Gen(prop, tier string, ts *sim.Tapes) *Case {
 	cfg.StrictMode, cfg.Mlock = false, false
 	t := ts.Get("lock")
 	ex := lockExtra{Arm: []string{"locks", "readonly"}[t.Pick(1, 1)]}
+	procEvery := 40
+	if tier == "thorough" {
+		procEvery = 8
+	}
+	if ts.Run%uint64(procEvery) == uint64(procEvery-1) {
+		ex.Arm = "procs"
+	}
 	c := &Case{Prop: prop, Engine: ls.Name(), Tier: tier, Seed: ts.Seed, Run: ts.Run, Tapes: map[string][]uint64{},
 		Params: map[string]int{"stickiness": []int{0, 50, 80}[t.Pick(1, 2, 2)]}}
 	p := work.GenParams{MaxSteps: 6, MaxOps: 25, NoErrors: true, OnlyCommit: true, Guards: ActiveGuards()}
-	if ex.Arm == "locks" {
+	if ex.Arm == "procs" {
+		// separate OS processes, real time: short timeouts and holds
+		c.Prog = &work.Program{Cfg: cfg}
+		n := 2 + t.Intn(2)
+		for i := 0; i < n; i++ {
+			var steps []lockStep
+			for j := 0; j < 2; j++ {
+				steps = append(steps, lockStep{RO: t.Chance(1, 2), TimeoutMS: []int{0, 120, 300}[t.Pick(1, 2, 1)],
+					Before: 0, HoldMS: []int{0, 40, 260}[t.Pick(1, 2, 2)]})
+			}
+			ex.Tasks = append(ex.Tasks, steps)
+		}
+	} else if ex.Arm == "locks" {
 		c.Prog = &work.Program{Cfg: cfg}
 		n := 2 + t.Intn(3)
 		for i := 0; i < n; i++ {
@@ -90,6 +113,10 @@ func (ls locksim) Run(c *Case, dir string) (out *Outcome) {
 	}
 	if ex.Arm == "readonly" {
 		ls.runReadOnly(c, dir, out)
+		return out
+	}
+	if ex.Arm == "procs" {
+		ls.runProcs(c, &ex, dir, out)
 		return out
 	}
 	if curT == nil {
@@ -556,4 +583,155 @@ func init() {
 		RealStub: "real: all of bbolt, real flock(2) on separate open file descriptions (two Opens of one path in one process conflict exactly like two processes), real PROT_READ mapping, the CLI commands run in-process from cmd/bbolt/command; simulated: which task runs next and the clock (flock retry sleeps and timeouts run on the synctest fake clock); observed: every I/O call of the read-only handle through the hooks. Separate OS processes are not used (stated limit).",
 		Rule:     "two arms, one evaluation each per seeded run. locks: 2-4 tasks perform Open(rw|ro, timeout 0/50ms/120ms/1s)/hold/Close sequences on one path under the token scheduler; oracle: an Open never succeeds while a handle with a conflicting mode is open, ErrTimeout only with a timeout, only if a conflicting handle was open at some time during the call, and not before timeout minus one retry interval; every call returns. readonly: a seeded history populates a file, then a seeded program of all API calls incl. every mutator runs against a read-only handle (Begin(true)/Update/Batch refused, mutators in read transactions refused, content equals the model), zero write/sync/truncate calls observed, file SHA-256 unchanged, a second read-only Open coexists and a read-write Open times out, the 10 CLI inspection commands succeed and leave the file byte-identical, and one byte is written into every slice a read transaction returns (must fault or leave stored content unchanged). distinct = distinct schedule fingerprints (locks) / (content, program) pairs (readonly)",
 		Assume:   []string{"flock semantics of separate processes are represented by separate open file descriptions in one process", "an upper bound on how late ErrTimeout may arrive is not asserted (a descheduled task may legitimately be late)"}})
+}
+
+// ---------------------------------------------------------------------------
+// separate OS processes (real flock between processes, real time)
+
+type procIval struct {
+	ro                 bool
+	subFrom, subTo     time.Time // the handle was certainly open throughout [subFrom, subTo]
+	superFrom, superTo time.Time // the handle can only have been open within [superFrom, superTo]
+}
+
+// runProcs steps 2-3 helper processes (the worker binary in lock-helper mode)
+// through Open/hold/Close sequences on one path. Timing is the operating
+// system's: the oracle only uses intervals that are sound whatever the delays
+// (see procIval). Replay of this arm is best-effort.
+func (ls locksim) runProcs(c *Case, ex *lockExtra, dir string, out *Outcome) {
+	path := filepath.Join(dir, fmt.Sprintf("procdb-%d", c.Run))
+	os.Remove(path)
+	defer os.Remove(path)
+	db0, err := bolt.Open(path, 0600, &bolt.Options{PageSize: c.Prog.Cfg.PageSize})
+	if err != nil {
+		out.HarnessErr = err.Error()
+		return
+	}
+	_ = db0.Close()
+	var mu sync.Mutex
+	var ivals []*procIval
+	type call struct {
+		ro        bool
+		from, to  time.Time
+		timedOut  bool
+		timeoutMS int
+	}
+	var calls []call
+	var viol []*work.Violation
+	fail := func(class, f string, a ...any) {
+		mu.Lock()
+		if len(viol) < 10 {
+			viol = append(viol, &work.Violation{Prop: "C17", Class: class, Msg: fmt.Sprintf(f, a...)})
+		}
+		mu.Unlock()
+	}
+	var wg sync.WaitGroup
+	for ti, steps := range ex.Tasks {
+		ti, steps := ti, steps
+		wg.Add(1)
+		go func() {
+			defer wg.Done()
+			cmd := exec.Command(os.Args[0], "-test.run", "^TestLockHelper$", "-test.timeout", "2m")
+			cmd.Env = append(os.Environ(), "VERIF_LOCK_HELPER=1", "VERIF_SPEC=")
+			stdin, _ := cmd.StdinPipe()
+			stdout, _ := cmd.StdoutPipe()
+			if err := cmd.Start(); err != nil {
+				fail("helper", "cannot start helper process: %v", err)
+				return
+			}
+			defer func() { _ = stdin.Close(); _ = cmd.Wait() }()
+			rd := bufio.NewReader(stdout)
+			ask := func(line string) string {
+				_, _ = io.WriteString(stdin, line+"\n")
+				for {
+					resp, err := rd.ReadString('\n')
+					if err != nil {
+						return "eof"
+					}
+					resp = strings.TrimSpace(resp)
+					if strings.HasPrefix(resp, "R ") {
+						return resp[2:]
+					}
+				}
+			}
+			for _, st := range steps {
+				sent := time.Now()
+				mode := "rw"
+				if st.RO {
+					mode = "ro"
+				}
+				resp := ask(fmt.Sprintf("open %s %d %s", mode, st.TimeoutMS, path))
+				got := time.Now()
+				mu.Lock()
+				calls = append(calls, call{ro: st.RO, from: sent, to: got, timedOut: resp == "timeout", timeoutMS: st.TimeoutMS})
+				mu.Unlock()
+				switch resp {
+				case "ok":
+					iv := &procIval{ro: st.RO, subFrom: got, superFrom: sent}
+					time.Sleep(time.Duration(st.HoldMS) * time.Millisecond)
+					iv.subTo = time.Now()
+					r2 := ask("close")
+					iv.superTo = time.Now()
+					if r2 != "ok" {
+						fail("close-error", "helper %d: Close: %s", ti, r2)
+					}
+					mu.Lock()
+					ivals = append(ivals, iv)
+					mu.Unlock()
+				case "timeout":
+					if st.TimeoutMS == 0 {
+						fail("timeout-without-timeout", "Open without a timeout returned ErrTimeout (separate process)")
+					}
+					if el := got.Sub(sent); el < time.Duration(st.TimeoutMS-50)*time.Millisecond {
+						fail("timeout-too-early", "Open(timeout %dms) in a separate process gave up after %v", st.TimeoutMS, el)
+					}
+				default:
+					fail("open-error", "helper %d: Open(%s): %s", ti, mode, resp)
+				}
+			}
+		}()
+	}
+	done := make(chan struct{})
+	go func() { wg.Wait(); close(done) }()
+	select {
+	case <-done:
+	case <-time.After(90 * time.Second):
+		fail("open-never-returns", "helper processes did not finish their Open/Close sequences within 90 s")
+	}
+	mu.Lock()
+	defer mu.Unlock()
+	// (1) two conflicting handles certainly open at the same time
+	for i := 0; i < len(ivals); i++ {
+		for j := i + 1; j < len(ivals); j++ {
+			a, b := ivals[i], ivals[j]
+			if a.ro && b.ro {
+				continue
+			}
+			if a.subFrom.Before(b.subTo) && b.subFrom.Before(a.subTo) {
+				viol = append(viol, &work.Violation{Prop: "C17", Class: "lock-not-exclusive", Msg: fmt.Sprintf("two processes held conflicting handles (readOnly=%v / readOnly=%v) at the same time", a.ro, b.ro)})
+			}
+		}
+	}
+	// (2) a timeout without any conflicting handle possibly open during the call
+	for _, cl := range calls {
+		if !cl.timedOut {
+			continue
+		}
+		out.fault("lock-timeout-fired(processes)", 1)
+		conflict := false
+		for _, iv := range ivals {
+			if (!cl.ro || !iv.ro) && iv.superFrom.Before(cl.to) && cl.from.Before(iv.superTo) {
+				conflict = true
+			}
+		}
+		if !conflict {
+			viol = append(viol, &work.Violation{Prop: "C17", Class: "timeout-without-conflict", Msg: fmt.Sprintf("a process's Open(readOnly=%v, timeout %dms) returned ErrTimeout although no conflicting handle can have been open during the call", cl.ro, cl.timeoutMS)})
+		}
+	}
+	out.probe("process-arm-opens", len(calls))
+	out.probe("process-arm-handles", len(ivals))
+	out.Viol = viol
+	out.Evals = 1
+	out.Distinct = append(out.Distinct, mixHash(c.Run, uint64(len(calls)), 0x9c))
+	out.Sample = map[string]any{"run": c.Run, "arm": "procs (separate OS processes, real time)", "tasks": ex.Tasks}
 }
